@@ -260,6 +260,9 @@ def render(ast: dict, spec: dict) -> tuple[str, list[str]]:
     pr = surface.Printer(respell=rs)
     pr.program(ast)
     text, _ = surface.layout(pr.toks, random.Random(spec["ls"]), spec["style"], rich=True)
+    if spec.get("crlf"):
+        # the same file saved with Windows line breaks (also inside multi-line literals): "line breaks" is layout
+        text = text.replace("\r\n", "\n").replace("\n", "\r\n")
     return text, [t.text for t in pr.toks]
 
 
@@ -268,7 +271,8 @@ def plan(rng: random.Random, k: int) -> list[dict]:
     specs = [{"dims": [], "rs": 0, "style": "canonical", "ls": 0},
              {"dims": [], "rs": 0, "style": "dense", "ls": 0},
              {"dims": [], "rs": 0, "style": "random", "ls": rng.getrandbits(30)},
-             {"dims": DIMS, "rs": rng.getrandbits(30), "style": "canonical", "ls": 0}]
+             {"dims": DIMS, "rs": rng.getrandbits(30), "style": "canonical", "ls": 0},
+             {"dims": [], "rs": 0, "style": "canonical", "ls": 0, "crlf": True}]
     while len(specs) < k:
         c = rng.random()
         dims = DIMS if c < 0.6 else rng.sample(DIMS, rng.choice([1, 1, 2, 3]))
@@ -495,6 +499,39 @@ def difference_shape(a: dict, b: dict) -> str:
 
 
 # ----------------------------------------------------------------------------------------------------------------------
+def ssbs_header_spellings(run: core.Run, pool: core.Pool, stats: Counter) -> int:
+    """SsbScript sources go through the same compile(): the routine headers `def N for_actor(X)` / `def N for actor X` and the
+    base in which N, X and integer arguments are written do not change the compiled result either"""
+    r = run.rng
+    bad = 0
+
+    def spell(v: int, base: str) -> str:
+        return {"dec": str(v), "hex": hex(v), "HEX": "0X" + format(v, "X"), "oct": oct(v), "bin": bin(v)}[base]
+    cases = []
+    for _ in range(12):
+        kind = r.choice(["actor", "object", "performer"])
+        tgt, arg = r.choice([0, 1, 7, 16, 255, 1000]), r.choice([0, 3, 26, 4096])
+        variants = []
+        for b in ["dec", "hex", "HEX", "oct", "bin"]:
+            hdr = r.choice([f"def 1 for_{kind}({spell(tgt, b)})", f"def 1 for {kind} {spell(tgt, b)}"])
+            variants.append(f"//?: is-ssb-script: true\ndef 0 {{\n    a({spell(arg, b)});\n    Return();\n}}\n{hdr} {{\n    b({spell(arg, 'dec')}, {spell(tgt, b)});\n    Hold();\n}}\n")
+        cases.append(variants)
+    res = escommon.compile_all(pool, [t for vs in cases for t in vs])
+    k = 0
+    for vs in cases:
+        rs = res[k:k + len(vs)]
+        k += len(vs)
+        ref = observable(rs[0]) if "error" not in rs[0] else {"error": rs[0]["error"]}
+        for t, x in zip(vs[1:], rs[1:]):
+            stats["ssbscript_header_spellings"] += 1
+            got = observable(x) if "error" not in x else {"error": x["error"]}
+            if got != ref:
+                bad += 1
+                run.violation("ssbs:header_or_integer_base", "two SsbScript sources that differ only in the base of their integers / the spelling of the routine header compile differently",
+                              {"reference": vs[0], "variant": t, "ref_result": ref, "variant_result": got})
+    return bad
+
+
 def run(run: core.Run) -> int:
     quick = run.tier == "quick"
     n_prog, k = (100, 8) if quick else (5000, 20)
@@ -520,6 +557,7 @@ def run(run: core.Run) -> int:
     import tempfile
     lib_dir = tempfile.mkdtemp(prefix="c16_imports_", dir="/tmp")
     try:
+        n_viol += ssbs_header_spellings(run, pool, stats)
         write_libs(progs, lib_dir)
         flat = [t for p in progs for t in p["texts"]]
         results = compile_items(pool, [{"text": t, "file": p["file"]} for p in progs for t in p["texts"]], chunk=20, timeout=180)
